@@ -38,7 +38,7 @@ pub const TEMPLATES: &[&str] = &[
     "DEFCIRCUIT C(%a) p q:\n    RX(%a) p\n    MEASURE q ro\n    JUMP @l",
 ];
 pub const TOKS: &[&str] = &[
-    "a", "b[1]", "0", "1", "1.0", "-1", "2.5", "-", "+", "*", "/", "^", "(", ")", "[", "]", ",", ":", "!", "\"s\"", "\"x\ty\"", "\"x\ny\"", "%v", "@l", "pi", "i", "2i", "sin", "BIT", "REAL", "AS", "MATRIX", "SHARING", "OFFSET", "mut", "CONTROLLED", "DAGGER",
+    "a", "b[1]", "0", "1", "1.0", "-1", "2.5", "1e-17", "3e-20i", "-", "+", "*", "/", "^", "(", ")", "[", "]", ",", ":", "!", "\"s\"", "\"x\ty\"", "\"x\ny\"", "%v", "@l", "pi", "i", "2i", "sin", "BIT", "REAL", "AS", "MATRIX", "SHARING", "OFFSET", "mut", "CONTROLLED", "DAGGER",
     "\n    ", "\n", "NONBLOCKING", "MEASURE", "X", "q", "1e21", "9223372036854775808", "-9223372036854775808", "18446744073709551615", "é",
 ];
 
@@ -450,7 +450,7 @@ pub static C01: PropDef = PropDef {
     id: "C01",
     level: "exploration",
     engine: "sweep",
-    rule: "(a) every string of length <= 4 (thorough 5) over a 28-character alphabet (digits, radix/exponent letters, signs, quote, backslash, #, %, @, brackets, whitespace, two non-ASCII) behind 6 operand-reaching prefixes, fed to all 5 from_str entry points, and the same strings inside `RX(...) 0` and directly after a name in `RX(a... 1) 0` (so that most are accepted); (b) every command (54) followed by <= 3 (4) tokens of a 44-token operand alphabet; (c) 118 grammar templates with every single-token deletion / replacement / insertion over 48 tokens (incl. strings containing a tab and a newline), all template pairs (thorough: two-token replacements, triples); (d) 16 expression-bearing templates x every expression tree of depth <= 1 (693) and a slice of depth 2. Worker processes: a panic is caught and located, an abort/stack overflow kills the worker and is attributed to the case. non-trivial = input accepted by at least one entry point (distinct by text)",
+    rule: "(a) every string of length <= 4 (thorough 5) over a 28-character alphabet (digits, radix/exponent letters, signs, quote, backslash, #, %, @, brackets, whitespace, two non-ASCII) behind 6 operand-reaching prefixes, fed to all 5 from_str entry points, and the same strings inside `RX(...) 0` and directly after a name in `RX(a... 1) 0` (so that most are accepted); (b) every command (54) followed by <= 3 (4) tokens of a 44-token operand alphabet; (c) 118 grammar templates with every single-token deletion / replacement / insertion over 50 tokens (incl. strings containing a tab and a newline, and literals below 1e-16), all template pairs (thorough: two-token replacements, triples); (d) 16 expression-bearing templates x every expression tree of depth <= 1 (693) and a slice of depth 2. Worker processes: a panic is caught and located, an abort/stack overflow kills the worker and is attributed to the case. non-trivial = input accepted by at least one entry point (distinct by text)",
     assumptions: &["overflow checks and debug assertions are ON in the harness build so that integer overflow panics instead of wrapping", "inputs outside the alphabets (long programs, other Unicode) are not covered"],
     run: |ctx| run(ctx, Which::C01),
     replay: |c| replay(Which::C01, c),
